@@ -74,6 +74,21 @@ claim(
     "DESIGN.md §5.3 C24",
 )
 
+claim(
+    "C35",
+    "SPSCRingBuffer is modelled at one action per atomic operation / element access (Model/Spsc.lean; single and batch "
+    "push and pop, observers, destructor; any buffer size K >= 2). C35_fifo proves for every run with one producer "
+    "thread and one consumer thread: the values popped are a prefix of the values pushed (exactly once, in order), at "
+    "most K-1 elements are ever written and not yet taken, and a pop never yields a moved-from slot; "
+    "C35_push_reject_iff_full / C35_pop_reject_iff_empty: a call is rejected exactly when the index it read says "
+    "full/empty. Traces of the real code (capacities 1..4, exact and power-of-two sizes) under the deterministic "
+    "scheduler are replayed through the same exec; the harness oracle checks prefix-FIFO, occupancy and lifetimes.",
+    "Trusted: Lean kernel; dsched; SC reading (orders are C10's); element accesses are visible only because the harness "
+    "payload's member is an atomic; index wrap beyond 2^64 operations is irrelevant (indices are reduced mod K).",
+    "Lean 4 proof (ghost absolute counters + history induction) + trace validation under a deterministic scheduler",
+    "DESIGN.md §5.5 C35",
+)
+
 ALL = ["C%02d" % i for i in range(1, 49)]
 for _p in ALL:
     if _p not in CLAIMED:
